@@ -7,10 +7,12 @@ from harness.props._c06_common import F, fs
 
 PID = "C06"
 VO = ["theories/Reductions/Moments.vo", "theories/Reductions/Moments_proofs.vo",
-      "theories/Reductions/Reduction.vo", "theories/Reductions/MomentsIO.vo", "theories/Base/Flat.vo"]
+      "theories/Reductions/Reduction.vo", "theories/Reductions/MomentsIO.vo", "theories/Base/Flat.vo",
+      "theories/Reductions/MomentBridge.vo", "theories/Reductions/MomentBridge_proofs.vo",
+      "theories/Reductions/MomentBridgeIO.vo"]
 PROPS_FILES = ["props/C06.v"]
 TRANSLATORS = ["t_moments"]
-REQUIRES = ["From FL Require Import Num Flat Moments Reduction MomentsIO."]
+REQUIRES = ["From FL Require Import Num Flat Moments Reduction MomentsIO MomentBridge MomentBridgeIO."]
 SHARD = 40
 CHUNK = 4
 CASE_TIMEOUT = 900       # wall-clock alarm per case; a case needs < 1 s, the margin absorbs a heavily shared machine
@@ -22,13 +24,20 @@ LEVEL_TEXT = ("Proof (Coq) about the executable model Moments.v of UtilityParity
               "entry equals r*mean_{e,g}(u) - mean_e(u) and the '-' entry r*mean_e(u) - mean_{e,g}(u); rows outside "
               "the conditioned label class are inert; entries of a control stratum depend only on that stratum; "
               "bound() is constant eps; BoundedGroupLoss.gamma is the per-group mean clipped loss within "
-              "[0, loss.max]; ErrorRate.gamma is the cost-weighted error. Tie to the code: translator t_moments "
+              "[0, loss.max]; ErrorRate.gamma is the cost-weighted error; for ratio 1 and a hard classifier the '+' entry "
+              "at (event, g) equals by_group[g] - overall of the matching rate of C03's MetricFrame model "
+              "(selection rate / TPR / FPR / both / zero-one loss), the '-' entry its negation, per control "
+              "stratum when control features are given (gamma_vs_metricframe); MeanLoss is the single overall "
+              "mean loss; ErrorRate accepts exactly non-negative, not-both-zero {fp, fn} costs. "
+              "Tie to the code: translator t_moments "
               "(U-column, gamma and pred expressions, fail closed) + differential run of the same Gallina "
               "definitions against the real moments on generated datasets.")
 LEVEL_NOTE = ("Trusted: Coq kernel + vm_compute; translator t_moments; pandas groupby / DataFrame.dot and float64 "
               "arithmetic are modelled over exact rationals (compared at 1e-9); event strings are never parsed: "
               "index entries are compared as (sign, rows of the event, rows of the event and the group). "
-              "gamma_vs_metricframe of DESIGN.md is not proved here (it needs the C01/C14 models).")
+              "gamma_vs_metricframe is proved against Fairness.metric_frame (C03 model, unit weights, one "
+              "sensitive column); MetricFrame's control_features are modelled as one frame per stratum; the real "
+              "MetricFrame is run on every ratio-1 case and compared with both gamma() and the model.")
 TECHNIQUE = "Coq proof on an executable model + source translator + differential model/implementation run"
 TRUSTED = ["Coq 8.16.1 kernel and vm_compute", "translators/t_moments.py", "harness/props/c06.py, _c06_common.py "
            "(generators, canonical index, comparison)", "pandas groupby/concat/dot (modelled)",
@@ -40,7 +49,9 @@ RULE = ("cases: datasets n<=14, 2..4 groups, control feature absent or 1..3 stra
         "lacking a label class or a group), five parity moments x {default, difference_bound, ratio_bound in "
         "{1, 9/10, 1/2, 1/4} with slack}, invalid bound combinations, ErrorRate with cost pairs, BoundedGroupLoss "
         "with square / absolute loss; observables index, gamma(zero, one, every unit predictor, 3 dyadic soft "
-        "predictors), bound(); non-trivial = the index is non-empty and some event has >= 2 groups")
+        "predictors), bound(); for ratio 1: MetricFrame(by_group - overall) of the matching rate for every hard "
+        "predictor vs gamma() and vs the Coq bridge value; BoundedGroupLoss cases also load MeanLoss; ErrorRate "
+        "cases include rejected cost dicts; non-trivial = the index is non-empty and some event has >= 2 groups")
 EXHAUSTIVE = {"quick": False, "thorough": False}
 
 NCASES = {"quick": 250, "thorough": 3000}
@@ -57,8 +68,13 @@ def cases(tier, seed):
             costs = r.choice([None, ("1", "1"), ("2", "1"), ("1/2", "3"), ("0", "1"), ("1", "0"), ("1/4", "1/8")])
             hs = K.gen_predictors(r, len(d["y"]))
             hs.append([fs(Fraction(r.randint(-4, 12), 8)) for _ in d["y"]])      # outside [0,1] too
+            keys = "ok"
+            if r.chance(1, 4):                   # constructor validation: cost dicts that must be rejected (or not)
+                costs, keys = r.choice([(("0", "0"), "ok"), (("-1", "1"), "ok"), (("1", "-1/2"), "ok"),
+                                        (("-1/4", "-1/4"), "ok"), (("1", "1"), "missing"), (("1", "2"), "extra"),
+                                        (("0", "1/1024"), "ok"), (("0", "0"), "extra")])
             out.append({"fam": "er", "fp": None if costs is None else costs[0],
-                        "fn": None if costs is None else costs[1], **d, "hs": hs})
+                        "fn": None if costs is None else costs[1], "keys": keys, **d, "hs": hs})
         elif t == 9:
             ng = r.randint(1, 4)
             m = r.randint(max(ng, 2), 12)       # n = 1 breaks _validate_and_reformat_input (squeeze -> 0-d)
@@ -101,16 +117,33 @@ def impl(case):
         res["bound"] = [float(v) for v in b.values]
         if list(b.index) != idx:
             res["aligned"] = False
+        if K.bridge_enabled(case):
+            # gamma_vs_metricframe: the real MetricFrame on the same data, for every hard predictor
+            try:
+                res["mf"] = K.metricframe_gaps(case, m)
+            except Exception as e:  # noqa
+                res["mf"] = {"error": repr(e)[:300]}
         return res
     if fam == "er":
         import fairlearn.reductions as red
-        m = red.ErrorRate() if case["fp"] is None else red.ErrorRate(costs={"fp": float(F(case["fp"])),
-                                                                            "fn": float(F(case["fn"]))})
+        if case["fp"] is None:
+            m = red.ErrorRate()
+        else:
+            costs = {"fp": float(F(case["fp"])), "fn": float(F(case["fn"]))}
+            if case.get("keys", "ok") == "missing":
+                del costs["fn"]
+            elif case.get("keys", "ok") == "extra":
+                costs["tp"] = 1.0
+            try:
+                m = red.ErrorRate(costs=costs)
+            except ValueError:
+                return {"config_error": True}
         X, y, kw = K.data_kwargs(case)
         if K.preload_flag(case):
             K.decoy_load(m, X, y, kw)
         m.load_data(X, y, **kw)
-        res = {"gamma": [], "n_index": len(m.index)}
+        res = {"config_error": False, "fp": float(m.fp_cost), "fn": float(m.fn_cost), "gamma": [],
+               "n_index": len(m.index)}
         for h in case["hs"]:
             gm = m.gamma(K.fixed(h))
             res["gamma"].append([float(v) for v in gm.values])
@@ -142,6 +175,25 @@ def impl_bgl(case):
         res["bound"] = {str(K.GNAMES.index(g)): float(v) for g, v in b.items()}
     except ValueError:
         res["bound"] = None
+    # MeanLoss = the same moment with no_groups=True (a fresh loss object; decoy preload as above)
+    from fairlearn.reductions._moments.bounded_group_loss import MeanLoss          # not re-exported
+    ml = MeanLoss(L(float(F(case["lo"])), float(F(case["hi"]))))
+    if K.preload_flag(case):
+        K.decoy_load(ml, X, y, {"sensitive_features": [K.GNAMES[g] for g in case["g"]]})
+    ml.load_data(X, y, sensitive_features=[K.GNAMES[g] for g in case["g"]])
+    res["ml_index"] = [str(v) for v in ml.index]
+    res["ml_gamma"] = []
+    res["ml_aligned"] = True
+    for h in case["hs"]:
+        gm = ml.gamma(K.fixed(h))
+        if list(gm.index) != list(ml.index):
+            res["ml_aligned"] = False
+        res["ml_gamma"].append([float(v) for v in gm.values])
+    try:
+        ml.bound()
+        res["ml_bound_raises"] = False
+    except ValueError:
+        res["ml_bound_raises"] = True
     res["sw"] = []
     res["resid"] = 0.0
     for lam in case.get("lams", []):
@@ -169,17 +221,22 @@ def g_lrows(case):
 def term(case, out):
     fam = case["fam"]
     if fam == "parity":
-        return (f"run_parity {case['moment']} {K.g_oq(case['db'])} {K.g_oq(case['rb'])} {gq(F(case['slack']))} "
-                f"{K.g_rows(case)} {K.g_hs(case['hs'])}")
+        hb = [case["hs"][i] for i in K.hard_ids(case)] if K.bridge_enabled(case) else []
+        return (f"run_parity_bridge {case['moment']} {K.g_oq(case['db'])} {K.g_oq(case['rb'])} "
+                f"{gq(F(case['slack']))} {K.g_rows(case)} {K.g_hs(case['hs'])} {K.g_hs(hb)}")
     if fam == "er":
         fp = F(case["fp"]) if case["fp"] is not None else 1
         fn = F(case["fn"]) if case["fn"] is not None else 1
-        return f"run_er {gq(fp)} {gq(fn)} {K.g_rows(case)} {K.g_hs(case['hs'])}"
+        if case["fp"] is None:
+            costs = "None"
+        else:
+            costs = f"(Some ({'true' if case.get('keys', 'ok') == 'ok' else 'false'}, {gq(fp)}, {gq(fn)}))"
+        return f"run_er_config {costs} ++ run_er {gq(fp)} {gq(fn)} {K.g_rows(case)} {K.g_hs(case['hs'])}"
     if fam == "bgl":
         ng = len(set(case["g"]))
         lams = [l[:ng] for l in case.get("lams", [])]
         return (f"run_bgl {g_loss(case)} {K.g_oq(case['ub'])} {g_lrows(case)} {K.g_hs(case['hs'])} "
-                f"{K.g_hs(lams)}")
+                f"{K.g_hs(lams)} ++ run_mean_loss {g_loss(case)} {g_lrows(case)} {K.g_hs(case['hs'])}")
     raise ValueError(fam)
 
 
@@ -187,28 +244,38 @@ def decode(case, zs):
     d = Dec(zs)
     fam = case["fam"]
     if fam == "parity":
+        def bridge():
+            return d.list(lambda: d.list(lambda: d.opt(d.ext)))
         if d.z() == 0:
+            bridge()
             d.done()
             return {"config_error": True}
         eps = d.q(); ratio = d.q()
         index = K.dec_index(d)
         gamma = d.list(lambda: d.list(d.q))
         bound = d.list(d.q)
+        br = bridge()
         d.done()
-        return {"config_error": False, "eps": eps, "ratio": ratio, "index": index, "gamma": gamma, "bound": bound}
+        return {"config_error": False, "eps": eps, "ratio": ratio, "index": index, "gamma": gamma, "bound": bound,
+                "bridge": br}
     if fam == "er":
+        cfg = d.opt(lambda: [d.q(), d.q()])
         gamma = d.list(d.q)
         sw = d.list(d.q)
         d.done()
-        return {"gamma": gamma, "sw": sw}
+        return {"config": cfg, "gamma": gamma, "sw": sw}
     if fam == "bgl":
         index = d.list(d.z)
         gamma = d.list(lambda: d.list(d.q))
         bound = d.opt(lambda: d.list(d.q))
         lmax = d.q()
         sw = d.list(lambda: d.list(d.q))
+        ml_index = d.list(d.z)
+        ml_gamma = d.list(lambda: d.list(d.q))
+        ml_max = d.q()
         d.done()
-        return {"index": index, "gamma": gamma, "bound": bound, "loss_max": lmax, "sw": sw}
+        return {"index": index, "gamma": gamma, "bound": bound, "loss_max": lmax, "sw": sw,
+                "ml_index": ml_index, "ml_gamma": ml_gamma, "ml_max": ml_max}
     raise ValueError(fam)
 
 
@@ -231,6 +298,49 @@ def compare_index(pid, name, out_index, model_index, v):
                   "have no event", "property"))
         return None
     return {k: i for i, k in enumerate(ik)}, {k: i for i, k in enumerate(mk)}
+
+
+def compare_bridge(case, name, out, model, ip, mp):
+    """gamma_vs_metricframe on the implementation's own numbers (property kind) and the real MetricFrame against the
+    Coq bridge value (correspondence kind)"""
+    v = []
+    if not K.bridge_enabled(case) or "mf" not in out:
+        return v
+    mf = out["mf"]
+    if "error" in mf:
+        v.append((f"{PID}/{name}/metricframe/raises", f"MetricFrame raised on the moment's data: {mf['error']}",
+                  "MetricFrame(metrics=<matching rate>, y_true, y_pred=h(X), sensitive_features[, control_features]) "
+                  "is defined on every dataset the moment accepts", "correspondence"))
+        return v
+    signs = {k: k[0] for k in ip}
+    for t, hi in enumerate(mf["hard"]):
+        gi = out["gamma"][hi]
+        gap = mf["gap"][t]
+        for k in ip:
+            want = gap[ip[k]] if signs[k] == 1 else -gap[ip[k]]
+            if not num_close(gi[ip[k]], want):
+                v.append((f"{PID}/{name}/gamma/differs-from-metricframe",
+                          f"hard predictor #{hi}, entry {k}: gamma = {gi[ip[k]]} but MetricFrame by_group - overall = "
+                          f"{gap[ip[k]]} ('-' entries are compared with the negation)",
+                          "for ratio 1 the '+' entries of gamma coincide with MetricFrame(by_group - overall) of the "
+                          "matching rate (per control level), the '-' entries with its negation", "property"))
+                return v
+    br = model.get("bridge") or []
+    if len(br) != len(mf["hard"]):
+        v.append((f"{PID}/{name}/metricframe/differs-from-model", f"{len(br)} model bridge rows for "
+                  f"{len(mf['hard'])} hard predictors", "one bridge row per hard predictor", "correspondence"))
+        return v
+    for t, hi in enumerate(mf["hard"]):
+        for k in ip:
+            mv = br[t][mp[k]]
+            if mv is None or not num_close(mf["gap"][t][ip[k]], mv):
+                v.append((f"{PID}/{name}/metricframe/differs-from-model",
+                          f"hard predictor #{hi}, entry {k}: MetricFrame by_group - overall = {mf['gap'][t][ip[k]]}, "
+                          f"Coq metric_frame model (mf_gap on the control stratum) = {mv}",
+                          "the MetricFrame model of the bridge theorem computes what MetricFrame computes",
+                          "correspondence"))
+                return v
+    return v
 
 
 def compare(case, out, model):
@@ -271,8 +381,21 @@ def compare(case, out, model):
                 any(not num_close(a, b) for a, b in zip(out["bound"], model["bound"])):
             v.append((f"{PID}/{name}/bound/value", f"bound() = {out['bound'][:4]} expected constant {model['eps']}",
                       "bound() is the configured slack on every entry", "property"))
+        v.extend(compare_bridge(case, name, out, model, ip, mp))
         return v
     if fam == "er":
+        rejected = model["config"] is None
+        if out["config_error"] != rejected:
+            v.append((f"{PID}/ErrorRate/config/validation",
+                      f"ErrorRate(costs: fp={case['fp']} fn={case['fn']} keys={case.get('keys', 'ok')}) raised="
+                      f"{out['config_error']} but the model says rejected={rejected}",
+                      "costs must be a dict with exactly the keys fp, fn, both >= 0, not both 0", "property"))
+            return v
+        if rejected:
+            return v
+        if not num_close(out["fp"], model["config"][0]) or not num_close(out["fn"], model["config"][1]):
+            v.append((f"{PID}/ErrorRate/config/costs", f"(fp_cost, fn_cost) = ({out['fp']}, {out['fn']}) expected "
+                      f"{model['config']}", "costs as configured (1, 1 by default)", "property"))
         if out["n_index"] != 1:
             v.append((f"{PID}/ErrorRate/index/size", f"index has {out['n_index']} entries", "single entry", "property"))
         for t, (gi, gm) in enumerate(zip(out["gamma"], model["gamma"])):
@@ -298,6 +421,18 @@ def compare(case, out, model):
         if not num_close(out["loss_max"], model["loss_max"]):
             v.append((f"{PID}/BoundedGroupLoss/loss/max", f"loss.max {out['loss_max']} model {model['loss_max']}",
                       "loss.max bounds the clipped loss", "property"))
+        if len(out["ml_index"]) != 1 or len(model["ml_index"]) != 1 or not out["ml_aligned"]:
+            v.append((f"{PID}/MeanLoss/index/size", f"MeanLoss index {out['ml_index']} (model {model['ml_index']}), "
+                      f"gamma aligned={out['ml_aligned']}", "MeanLoss has the single constraint 'all'", "property"))
+            return v
+        for t, (gi, gm) in enumerate(zip(out["ml_gamma"], model["ml_gamma"])):
+            if len(gi) != 1 or len(gm) != 1 or not num_close(gi[0], gm[0]):
+                v.append((f"{PID}/MeanLoss/gamma/value", f"predictor #{t}: implementation {gi} model {gm}",
+                          "MeanLoss.gamma is the mean clipped loss over all rows", "property"))
+                break
+        if not out["ml_bound_raises"]:
+            v.append((f"{PID}/MeanLoss/bound/value", "MeanLoss.bound() did not raise", "MeanLoss has no upper bound "
+                      "(bound() raises ValueError)", "property"))
         return v
     return v
 
@@ -314,8 +449,12 @@ def tags(case, out, model):
         if not out.get("config_error"):
             t.append(f"index:{len(out['index'])}")
             nev = len({e for e in case["c"]}) if case["c"] is not None else 1
+        if K.bridge_enabled(case) and isinstance(out.get("mf"), dict) and "hard" in out["mf"]:
+            t.append("bridge:metricframe")
     elif fam == "bgl":
         t.append(f"loss:{case['loss']}")
+    elif fam == "er":
+        t.append("costs:" + ("rejected" if out.get("config_error") else "default" if case["fp"] is None else "given"))
     return t
 
 
@@ -329,7 +468,7 @@ def nontrivial(case, out, model):
         return any(len(x) >= 2 for x in ev.values())
     if case["fam"] == "bgl":
         return len(set(case["g"])) >= 2
-    return len(set(case["y"])) == 2
+    return len(set(case["y"])) == 2 and not out.get("config_error")
 
 
 def canon(case):
